@@ -12,6 +12,43 @@ fn main() {
         std::process::exit(2);
     }
     let family = args[1].as_str();
+    if family == "rerun" {
+        // drive rerun <trace.ndjson> <out.ndjson> [nopanic-hook]: re-execute recorded scenarios
+        use amverif::world::World;
+        let text = std::fs::read_to_string(&args[2]).expect("trace");
+        if args.len() <= 4 {
+            world::silence_panics();
+        }
+        let mut out = std::io::BufWriter::new(std::fs::File::create(&args[3]).expect("out"));
+        let mut w: Option<World> = None;
+        let mut rng = Rng::new(0);
+        let mut n = 0;
+        for line in text.lines().filter(|l| !l.trim().is_empty()) {
+            let e: serde_json::Value = serde_json::from_str(line).expect("json");
+            if e["ev"] == "reset" {
+                if let Some(w) = w.take() {
+                    for x in &w.log {
+                        writeln!(out, "{}", x).unwrap();
+                        n += 1;
+                    }
+                }
+                let lvl = if e["family"].as_str().unwrap_or("").starts_with("doc") { ObsLevel::View } else { ObsLevel::Graph };
+                w = Some(World::new(world::enc_from(e["enc"].as_str().unwrap_or("cp")), lvl,
+                    e["scn"].as_u64().unwrap_or(0) as usize, e["family"].as_str().unwrap_or("rerun")));
+            } else if let Some(w) = w.as_mut() {
+                w.replay_event(&e, &mut rng);
+            }
+        }
+        if let Some(w) = w.take() {
+            for x in &w.log {
+                writeln!(out, "{}", x).unwrap();
+                n += 1;
+            }
+        }
+        out.flush().unwrap();
+        println!("DRIVE family=rerun events={}", n);
+        return;
+    }
     if family == "dag" || family == "dagdup" {
         // drive dag <seed> <n> <outdir> [maxchanges]: histories exported as DAG constants for TLC
         return dag_main(&args);
@@ -25,11 +62,69 @@ fn main() {
     for i in 0..n {
         let mut srng = rng.fork();
         let w = match family {
+            "conflict" => {
+                use serde_json::json;
+                let mut prof = Profile::all();
+                prof.texts = false;
+                prof.nested = false;
+                prof.nkeys = 1 + (i % 2);
+                prof.counter_heavy = true;
+                prof.max_len = 4;
+                let cval = |n: i64| json!({"k":"counter","s":"","n":n,"toks":[]});
+                let base = vec![
+                    json!({"fn":"put_object","obj":[0,0],"key":"l","ty":"list"}),
+                    json!({"fn":"insert","obj":[1,1],"idx":0,"val":cval(1)}),
+                    json!({"fn":"insert","obj":[1,1],"idx":1,"val":{"k":"int","s":"7","n":0,"toks":[]}}),
+                ];
+                let o = scen::GraphOpts {
+                    weights: scen::W_CONFLICT,
+                    twin_start: false,
+                    base_calls: base,
+                    steps: 10 + srng.below(10),
+                    max_reps: 3,
+                    max_changes: 12,
+                    dup_actors: false,
+                    obs: ObsLevel::View,
+                    prof,
+                    enc: automerge::TextEncoding::UnicodeCodePoint,
+                };
+                scen::graph_scenario(i, &mut srng, &o, family)
+            }
+            "doc" | "doctext" => {
+                let text = family == "doctext";
+                let mut prof = Profile::all();
+                if text {
+                    prof.lists = false;
+                    prof.unicode = true;
+                    prof.max_len = 7;
+                } else {
+                    prof.texts = i % 3 == 2;
+                }
+                let enc = if text {
+                    [automerge::TextEncoding::UnicodeCodePoint, automerge::TextEncoding::Utf8CodeUnit, automerge::TextEncoding::Utf16CodeUnit][i % 3]
+                } else {
+                    automerge::TextEncoding::UnicodeCodePoint
+                };
+                let o = scen::GraphOpts {
+                    weights: scen::W_DOC,
+                    twin_start: false,
+                    base_calls: vec![],
+                    steps: 8 + srng.below(10),
+                    max_reps: 3,
+                    max_changes: 10,
+                    dup_actors: false,
+                    obs: ObsLevel::View,
+                    prof,
+                    enc,
+                };
+                scen::graph_scenario(i, &mut srng, &o, family)
+            }
             "graph" | "dup" => {
                 let dup = family == "dup";
                 let o = scen::GraphOpts {
                     weights: if dup { scen::W_DUP } else { scen::W_DEFAULT },
                     twin_start: dup,
+                    base_calls: vec![],
                     steps: 10 + srng.below(14),
                     max_reps: 4,
                     max_changes: 14,
@@ -72,6 +167,7 @@ fn dag_main(args: &[String]) {
         let o = scen::GraphOpts {
             weights: if dup { scen::W_DUP } else { scen::W_DEFAULT },
             twin_start: dup,
+                    base_calls: vec![],
             steps: 8 + srng.below(10),
             max_reps: 3,
             max_changes: maxc,
